@@ -37,6 +37,12 @@
 //!   one relay address) used by 2-4 local sockets of the same host (different source ports) at the same time,
 //!   one after the other, or with one socket closed and a new one taking over while the control connection
 //!   stays open; every socket must get exactly its own replies.
+//! * multi: several remotes on ONE client (multi.rs): 1-4 remotes drawn from fixed TCP remote, fixed UDP remote,
+//!   SOCKS, HTTP proxy, Unix socket, in a given order, on 127.0.0.1 / [::1] / 0.0.0.0, on port numbers of their
+//!   own or SHARED where the operating system allows it (a TCP listener and a UDP socket on one local address,
+//!   any two sockets on one port number of two local hosts); every remote is exercised with a tcp / udp
+//!   scenario as above, one after the other or all at the same time; an entry point that the running client
+//!   never opens is a violation with a key of its own (`multi-remote:<kind>:entry-point-never-opened`).
 //! * maps: the client's two UDP maps against the Lean model under the paused clock (maps.rs).
 //!
 //! Every wait is bounded; a hang is a failure.  A failing scenario is run again on its own in a
@@ -45,11 +51,13 @@
 
 mod io;
 mod maps;
+mod multi;
 mod tcp;
 mod udp;
 mod world;
 
 use io::Chunk;
+use multi::{MultiOutcome, MultiScn};
 use pvhf::{Args, Driver, FailKind, Report, Rng, Tier, Value, fnv, json};
 use std::sync::Arc;
 use std::time::{Duration, Instant};
@@ -64,6 +72,8 @@ enum Scn {
     /// 1-4 concurrent connections, connection j on target slot j
     Tcp(Vec<TcpScn>),
     Udp(UdpScn),
+    /// one client with a set of remotes of its own, every remote exercised (a world of its own)
+    Multi(MultiScn),
 }
 
 impl Scn {
@@ -71,10 +81,14 @@ impl Scn {
         match self {
             Scn::Tcp(v) => v.iter().map(TcpScn::line).collect::<Vec<_>>().join(" | "),
             Scn::Udp(u) => u.line(),
+            Scn::Multi(m) => m.line(),
         }
     }
     fn parse(line: &str) -> Option<Self> {
         let line = line.trim();
+        if line.starts_with("multi") {
+            return MultiScn::parse(line).map(Scn::Multi);
+        }
         if line.starts_with("udp") {
             return UdpScn::parse(line).map(Scn::Udp);
         }
@@ -87,6 +101,7 @@ impl Scn {
 enum Outcome {
     Tcp(Vec<ConnObs>, usize),
     Udp(UdpOutcome),
+    Multi(MultiOutcome),
     Infra(String),
 }
 
@@ -157,6 +172,7 @@ fn judge(sc: &Scn, out: &Outcome) -> Vec<(String, String)> {
                 })
                 .collect()
         }
+        (Scn::Multi(m), Outcome::Multi(o)) => multi::judge_multi(m, o).into_iter().map(|(_, k, d)| (k, format!("{d}  [{}]", m.line()))).collect(),
         _ => vec![],
     }
 }
@@ -193,6 +209,15 @@ async fn run_in_world(w: Arc<World>, sc: &Scn) -> Outcome {
                 None => Outcome::Udp(o),
             }
         }
+        Scn::Multi(_) => Outcome::Infra("a multi-remote scenario has a world of its own".into()),
+    }
+}
+
+async fn run_multi_scn(m: &MultiScn) -> Outcome {
+    let o = multi::run_multi(m).await;
+    match o.infra.clone() {
+        Some(e) => Outcome::Infra(e),
+        None => Outcome::Multi(o),
     }
 }
 
@@ -205,6 +230,16 @@ fn run_world(scs: &[Scn], multi_thread: bool) -> Vec<Outcome> {
     }
     .expect("runtime");
     let outs = rt.block_on(async {
+        // the scenarios of the several-remotes family bring their own client: a world each
+        if scs.iter().all(|s| matches!(s, Scn::Multi(_))) {
+            let mut outs = vec![];
+            for sc in scs {
+                if let Scn::Multi(m) = sc {
+                    outs.push(run_multi_scn(m).await);
+                }
+            }
+            return outs;
+        }
         let mut last = String::new();
         let mut world = None;
         for _ in 0..4 {
@@ -221,6 +256,10 @@ fn run_world(scs: &[Scn], multi_thread: bool) -> Vec<Outcome> {
         };
         let mut outs = vec![];
         for sc in scs {
+            if let Scn::Multi(m) = sc {
+                outs.push(run_multi_scn(m).await);
+                continue;
+            }
             if let Some(r) = w.client_result.lock().unwrap().clone() {
                 outs.push(Outcome::Infra(format!("CLIENT-ENDED client_main_inner returned {r}")));
                 continue;
@@ -963,6 +1002,19 @@ fn outcome_json(o: &Outcome) -> Value {
     match o {
         Outcome::Infra(e) => json!({"infra": e}),
         Outcome::Udp(u) => json!({"exchanges": u.exchanges, "replies_ok": u.replies_ok, "violations": u.bad.iter().map(|(k, d)| format!("{k}: {d}")).collect::<Vec<_>>()}),
+        Outcome::Multi(m) => json!({
+            "client_remotes": m.specs,
+            "entry_points_never_opened": m.never_opened.iter().map(|(i, d)| format!("remote {i}: {d}")).collect::<Vec<_>>(),
+            "tunnel_warm_up": m.warm_up,
+            "client_ended_at_start_up": m.ended_at_start,
+            "client_ended": m.ended,
+            "unexpected_target_connections": m.unexpected,
+            "through_each_remote": m.subs.iter().map(|(i, s)| match s {
+                multi::SubOut::Tcp(c) => json!({"remote": i, "connection": outcome_json(&Outcome::Tcp(vec![c.clone()], 0))["connections"][0]}),
+                multi::SubOut::Udp(u) => json!({"remote": i, "datagrams": {"exchanges": u.exchanges, "replies_ok": u.replies_ok, "violations": u.bad.iter().map(|(k, d)| format!("{k}: {d}")).collect::<Vec<_>>()}}),
+                multi::SubOut::Skipped => json!({"remote": i, "skipped": "nothing listens there"}),
+            }).collect::<Vec<_>>(),
+        }),
         Outcome::Tcp(v, unexpected) => json!({
             "unexpected_target_connections": unexpected,
             "connections": v.iter().map(|c| json!({
@@ -1061,7 +1113,9 @@ scenario (1-4 local UDP clients x tagged echo targets x payload sizes, via UDP r
 time, one-way streams longer than two idle timeouts that the target answers only at the end, and exchanges after a malformed \
 datagram on the relay socket of a SOCKS5 association, and long flows: up to 1100 exchanges on the same sockets, more than \
 64 KiB of replies once and three times over, and 2-4 local sockets of one host on ONE SOCKS5 UDP association, at the same time, \
-one after the other, or one closed and a new one going on) run in real time \
+one after the other, or one closed and a new one going on) or one client with a remote set of its own (1-4 remotes drawn from fixed TCP / fixed UDP / SOCKS / HTTP / Unix \
+socket, in a given order, on 127.0.0.1 / [::1] / 0.0.0.0, port numbers shared between TCP and UDP on one local address and between local hosts where the operating system allows, \
+every remote exercised with such a TCP / UDP scenario) run in real time \
 through the real client_main_inner and the real server on loopback; plus map-operation sequences on the real client maps under the \
 paused clock compared with the Lean model. Non-trivial = at least one byte / one datagram crossed the tunnel, or a close / refusal \
 was propagated; distinct by scenario text";
@@ -1139,6 +1193,12 @@ was propagated; distinct by scenario text";
         scs.extend(shared_assoc_pass(&mut rng.fork(5), args.tier));
     }
     let n_shared_gen = scs.len() - n_before_shared;
+    // several remotes on one client (a sub-stream of its own: nothing above changes)
+    let n_before_multi = scs.len();
+    if only.as_deref() != Some("maps") && !args.flag("--no-multi") {
+        scs.extend(multi::multi_pass(&mut rng.fork(8), args.tier).into_iter().map(Scn::Multi));
+    }
+    let n_multi_gen = scs.len() - n_before_multi;
     // the idle scenario (forwarder time-out on the server, pruning on the client) and the one-way streams
     let mut waiting: Vec<Scn> = vec![];
     if only.as_deref() != Some("maps") && !args.flag("--no-idle") {
@@ -1165,7 +1225,7 @@ was propagated; distinct by scenario text";
     let mut long: Vec<usize> = (0..scs.len()).filter(|i| is_long(&scs[*i])).collect();
     let expected_ms = |s: &Scn| match s {
         Scn::Udp(u) => u.idle_ms + u.oneway.as_ref().map_or(0, |o| o.ms + o.at_ms.map_or(0, |_| 5000)),
-        Scn::Tcp(_) => 0,
+        Scn::Tcp(_) | Scn::Multi(_) => 0,
     };
     long.sort_by_key(|i| std::cmp::Reverse(expected_ms(&scs[*i])));
     for (k, i) in long.iter().enumerate() {
@@ -1173,9 +1233,13 @@ was propagated; distinct by scenario text";
         jobs.push((vec![*i], !(args.tier == Tier::Thorough && k % 5 == 4)));
     }
     let n_long = long.len();
-    let short: Vec<usize> = (0..scs.len()).filter(|i| !is_long(&scs[*i])).collect();
+    let short: Vec<usize> = (0..scs.len()).filter(|i| !is_long(&scs[*i]) && !matches!(scs[*i], Scn::Multi(_))).collect();
     for (wi, chunk) in short.chunks(per_world).enumerate() {
         jobs.push((chunk.to_vec(), wi % 3 != 2));
+    }
+    // a scenario of the several-remotes family builds its own client anyway: a job each, both runtime flavours
+    for (k, i) in (0..scs.len()).filter(|i| matches!(scs[*i], Scn::Multi(_))).enumerate() {
+        jobs.push((vec![i], k % 3 != 2));
     }
     let threads = (width + n_long).min(jobs.len()).max(1);
     // the server part of the model on the idle scenario: is a datagram for a finished forwarder forwarded or dropped?
@@ -1222,6 +1286,8 @@ was propagated; distinct by scenario text";
     let (mut hdr_remote, mut hdr_client, mut hdr_other) = (0usize, 0usize, 0usize);
     // several local sockets on one SOCKS5 UDP association: scenarios, sockets, sockets created after another was closed, exchanges, replies
     let (mut sh_scs, mut sh_sockets, mut sh_renewed, mut sh_exchanges, mut sh_replies) = (0usize, 0usize, 0usize, 0usize, 0usize);
+    // several remotes on one client: scenarios, remotes, scenarios with a shared port number, of them TCP and UDP on one local address; what went through
+    let (mut mr_scs, mut mr_remotes, mut mr_shared, mut mr_one_addr, mut mr_conns, mut mr_bytes, mut mr_dgrams, mut mr_replies) = (0usize, 0usize, 0usize, 0usize, 0usize, 0usize, 0usize, 0usize);
     // dialogues after a half-close: messages awaited, slowest confirmation
     let (mut hold_msgs, mut hold_max_ms) = (0usize, 0u64);
     // late-reading peers: connections, bytes read by the late reader, of them complete with a clean end-of-stream
@@ -1262,7 +1328,7 @@ was propagated; distinct by scenario text";
                 }
             }
         }
-        if !bad.is_empty() && (is_long(sc) || matches!(sc, Scn::Udp(u) if u.junk.is_some())) && bad.iter().all(|(k, _)| confirmed_keys.contains(k)) {
+        if !bad.is_empty() && (is_long(sc) || matches!(sc, Scn::Udp(u) if u.junk.is_some()) || matches!(sc, Scn::Multi(_))) && bad.iter().all(|(k, _)| confirmed_keys.contains(k)) {
             // a scenario that mostly waits (or a junk scenario: every lost datagram is waited for), failing in a way
             // that has already been confirmed and reported on another scenario: not run again
             same_again.push(format!("{} :: {}", bad[0].0, sc.line()));
@@ -1281,6 +1347,18 @@ was propagated; distinct by scenario text";
                                 break;
                             }
                         }
+                    }
+                }
+            }
+            if let (Scn::Multi(m), Outcome::Multi(mo)) = (sc, &out) {
+                // a smaller client: the remote that fails together with one other remote
+                let mut failing: Vec<usize> = multi::judge_multi(m, mo).into_iter().filter_map(|(i, _, _)| i).collect();
+                failing.dedup();
+                for cand in m.shrink_candidates(&failing) {
+                    let small = Scn::Multi(cand);
+                    if let Some((b, o)) = confirm(&small, mt, 2) {
+                        confirmed = Some((small, b, o));
+                        break;
                     }
                 }
             }
@@ -1311,6 +1389,7 @@ was propagated; distinct by scenario text";
         let nontrivial = match &out {
             Outcome::Tcp(v, _) => v.iter().any(|c| c.target_connected || c.client.saw_eof || c.handshake_fail.is_some()),
             Outcome::Udp(u) => u.replies_ok > 0,
+            Outcome::Multi(m) => multi::nontrivial(m),
             Outcome::Infra(_) => false,
         };
         rep.case(nontrivial.then(|| fnv(sc.line().as_bytes())));
@@ -1450,6 +1529,34 @@ was propagated; distinct by scenario text";
                 hdr_client += o.hdr_client;
                 hdr_other += o.hdr_other;
             }
+            (Scn::Multi(m), Outcome::Multi(o)) => {
+                rep.count("multi-remote");
+                for b in m.buckets() {
+                    rep.count(&b);
+                }
+                mr_scs += 1;
+                mr_remotes += m.remotes.len();
+                mr_shared += usize::from(m.buckets().iter().any(|b| b.contains("/same-port-number/")));
+                mr_one_addr += usize::from(m.buckets().iter().any(|b| b.contains("/one-local-address-tcp-and-udp/")));
+                for (_, s) in &o.subs {
+                    match s {
+                        multi::SubOut::Tcp(c) => {
+                            mr_conns += 1;
+                            mr_bytes += c.client.received.len() + c.target.as_ref().map_or(0, |t| t.received.len());
+                        }
+                        multi::SubOut::Udp(u) => {
+                            mr_dgrams += u.exchanges;
+                            mr_replies += u.replies_ok;
+                            rep.count_n("udp/exchanges", u.exchanges as u64);
+                            rep.count_n("udp/replies-checked", u.replies_ok as u64);
+                            hdr_remote += u.hdr_remote;
+                            hdr_client += u.hdr_client;
+                            hdr_other += u.hdr_other;
+                        }
+                        multi::SubOut::Skipped => {}
+                    }
+                }
+            }
             _ => {}
         }
         if i < n_corpus + 3 || (i % 17 == 0) {
@@ -1457,7 +1564,7 @@ was propagated; distinct by scenario text";
         }
     }
     rep.notes.push(format!(
-        "{} end-to-end scenarios ({n_corpus} corpus, {n_fixed} fixed pass, {n_shared_gen} several-sockets-on-one-association, rest random and waiting), {} worlds, width {width}; {reruns} failing scenario(s) re-run alone, {} could not be reproduced; {infra} re-run for infrastructure reasons; {} s",
+        "{} end-to-end scenarios ({n_corpus} corpus, {n_fixed} fixed pass, {n_shared_gen} several-sockets-on-one-association, {n_multi_gen} several-remotes-on-one-client, rest random and waiting), {} worlds, width {width}; {reruns} failing scenario(s) re-run alone, {} could not be reproduced; {infra} re-run for infrastructure reasons; {} s",
         scs.len(),
         jobs.len(),
         unreproduced.len(),
@@ -1494,6 +1601,10 @@ was propagated; distinct by scenario text";
     ));
     rep.notes.push(format!(
         "several local sockets on one SOCKS5 UDP association: {sh_scs} scenario(s) with ONE UDP ASSOCIATE (one control connection, one relay address) used by 2-4 local sockets of one host (different source ports) at the same time / one after the other / with a socket closed and a new one going on while the control connection stays open: {sh_sockets} sockets ({sh_renewed} of them created after another was closed), {sh_exchanges} datagrams, {sh_replies} replies each checked at the socket that sent the request (every socket listening all the time), from the relay address, behind a well-formed RFC 1928 header naming neither another of these sockets nor another target; IPv4 and IPv6 targets never on one association here (that is the separate known finding)"
+    ));
+    rep.notes.push(format!(
+        "several remotes on one client: {mr_scs} scenario(s), each ONE real client with a remote set of its own ({mr_remotes} remotes in all; 1-4 per client drawn from fixed TCP / fixed UDP / SOCKS / HTTP / Unix socket, in a given order, on 127.0.0.1 / [::1] / 0.0.0.0), {mr_shared} of them with a port number used by more than one remote ({mr_one_addr}: a TCP listener and a UDP socket on ONE local address, in either order; the others: one port number on two local hosts); every entry point had to be there within {} ms of the first one, and EVERY remote was exercised with an ordinary scenario of its kind, one after the other or all at the same time, judged by the ordinary rules: {mr_conns} connections ({mr_bytes} payload bytes read at either end), {mr_dgrams} datagrams, {mr_replies} replies checked at the socket that sent the request; distribution under multi-remote/",
+        world::OPEN_GRACE.as_millis()
     ));
     if let Some(d) = &drv {
         rep.notes.push(format!("driver lines: {}", d.lines));
